@@ -65,6 +65,7 @@ func init() {
 	extendProp("C17", "(R17.13) getReplicaSetsForDeployment queries the ReplicaSet lister with the selector built from spec.selector (the template labels may change from one revision to the next; the selector cannot).", r7C17)
 	extendProp("C20", "(R20.10) the conversion functions contain no delete() on an object's annotations or labels (the ObjectMeta copy is shallow: source and destination share the maps); (R20.11) where source and destination have an optional scalar of the same name and type (pause.duration, …) the destination gets the source's pointer, not a value rebuilt from it.", r8C20)
 	extendProp("C08", "(R8.13) the error of fetchMatchedRollout is propagated by every admission handler (error discipline of R6.1 applied to the workload webhook); (R8.14) UnifiedWorkloadHandler.Handle returns a bare Allowed before handleStatefulSetLikeWorkload only when the workload-type label is not 'statefulset' AND the kind is not StatefulSet.", r8C08)
+	extendProp("C12", "(R12.12) PatchPodBatchLabel returns nil without running patchPodBatchLabel only for an empty rollout-id or an empty pod list.", r8C12)
 	extendProp("C08", "(R8.10) both admission handlers answer 'this workload is not selected by the webhook configuration' only after every entry and rule was examined (or the entry's selector cannot be parsed): the first entry whose rule matches does not decide alone.", r6C08)
 }
 
@@ -2220,4 +2221,32 @@ func r8C08(c *Ctx) {
 		c.Ob("R8.14", "UnifiedWorkloadHandler.Handle#unexamined-only-if-not("+q.label+")", fn.Pos(), !reach, "a bare Allowed before the StatefulSet-like handler needs the "+q.label+" to say 'not a StatefulSet'",
 			ifs(reach, "the Allowed at "+p.Pos(posOf(at))+" is reachable although the "+q.label+" may say StatefulSet: a StatefulSet-like workload recognised by only one of the two (a CRD with the workload-type label, or a StatefulSet selected without it) is admitted with no partition and no in-progress marker"))
 	}
+}
+
+// ---------------------------------------------------------------- C12 R12.12 (round 8)
+
+func r8C12(c *Ctx) {
+	p := c.Prog
+	c.Rule("R12.12", "the labelling pass is skipped only without a rollout-id or without pods", 1)
+	fn := p.Func("pkg/controller/batchrelease/labelpatch.realPatcher.PatchPodBatchLabel")
+	if fn == nil {
+		c.Unresolved("R12.12", "labelpatch.realPatcher.PatchPodBatchLabel")
+		return
+	}
+	does := func(in ssa.Instruction) bool {
+		ci, ok := in.(ssa.CallInstruction)
+		return ok && strings.HasSuffix(CalleeName(ci.Common()), "realPatcher.patchPodBatchLabel")
+	}
+	n := 0
+	for _, b := range fn.Blocks {
+		for _, in := range b.Instrs {
+			if does(in) {
+				n++
+			}
+		}
+	}
+	nothing := FOr(FCmp("==", MField("RolloutID"), MConst("")), FCmp("==", MLen(MField("Pods")), MConst("0")))
+	reach, at := CanReach(Entry(fn), successReturn(fn), ReachOpts{CutInstr: does, CutEdge: func(b *ssa.BasicBlock, k int) bool { return EdgeFactMatches(b, k, nothing) }})
+	c.Ob("R12.12", "PatchPodBatchLabel#always-runs-the-accounting", fn.Pos(), n > 0 && !reach, "nil is returned without the per-pod accounting only for an empty rollout-id or an empty pod list",
+		ifs(reach, "the return at "+p.Pos(posOf(at))+" skips the pass on another condition: a shortcut that counts pods by rollout-id alone also counts the ones the accounting deliberately does not (old revision, non-numeric or out-of-range batch-id), so the pods the batch really added never get their label")+ifs(n == 0, "call of patchPodBatchLabel not found"))
 }
